@@ -287,7 +287,7 @@ PROPS = {
         "stub": K_STUB,
         "assumptions": K_ASSUME + [
             "buffer addresses identify operations within a run: freed memory is quarantined for the whole run, so no address is reused",
-            "on polling-driver runs there is no kernel ledger: operations on one descriptor are issued one after the other and the stream, identity, region and job-value oracles apply",
+            "on polling-driver runs there is no kernel ledger: the bytes of the operations queued on one descriptor, in the order the program observed their completions, must be the peer's stream (the driver serves them first come, first served); the identity, region and job-value oracles apply as well",
             "multishot and managed operations are covered by C07 and C14, timers by C09",
         ],
         "level_text": ("Seeded exploration of mixes of concurrently pending operations under adversarial completion orders and 1-2 entry queues: no outcome is swapped between operations, duplicated or invented, every buffer comes back to the operation that submitted it with the bytes the kernel moved for it, "
